@@ -10,6 +10,7 @@ pub mod c04;
 pub mod c10;
 pub mod c11;
 pub mod c14;
+pub mod c16;
 pub mod c17;
 pub mod c18;
 pub mod c19;
@@ -32,6 +33,7 @@ pub fn registry() -> Vec<PropEntry> {
     PropEntry { id: "C10", meta: c10::meta, run: c10::run, replay: c10::replay, profiles: &["release", "chk"] },
     PropEntry { id: "C11", meta: c11::meta, run: c11::run, replay: c11::replay, profiles: &["release", "chk"] },
     PropEntry { id: "C14", meta: c14::meta, run: c14::run, replay: c14::replay, profiles: &["release", "chk"] },
+    PropEntry { id: "C16", meta: c16::meta, run: c16::run, replay: c16::replay, profiles: &["release"] },
     PropEntry { id: "C17", meta: c17::meta, run: c17::run, replay: c17::replay, profiles: &["release", "chk"] },
     PropEntry { id: "C18", meta: c18::meta, run: c18::run, replay: c18::replay, profiles: &["release", "chk", "bmi2"] },
     PropEntry { id: "C19", meta: c19::meta, run: c19::run, replay: c19::replay, profiles: &["release", "chk"] },
